@@ -417,4 +417,6 @@ func checkC13(c *Ctx, r *Report) {
 	sort.Strings(diffs)
 	r.Check(len(diffs) == 0, "R13d", c.FnName(sm), "dispatch agreement", c.Pos(sm.Pos()), "both dispatchers partition the installable policies identically", "unpacking into a pre-filled slice applies a different list policy than Merge: "+strings.Join(diffs, "; "))
 	_ = types.Identical
+	r.Rule("R13e", "nothing is carried from one Unpack to the next: no package-level variable is handed by address to library code except the atomic sequence counter (a memo of tag parsing keyed without the tag name lets an earlier call decide which fields a later call writes)", 1)
+	globalStateRuleAs(c, r, "R13e")
 }
